@@ -49,8 +49,7 @@ def canon(o):
     if isinstance(o, CIMQualifierDeclaration):
         return ("qdecl", _lc(o.name), o.type, bool(o.is_array), o.array_size,
                 canon(o.value),
-                tuple(sorted((k.lower(), bool(v)) for k, v in o.scopes.items()
-                             if v)),
+                _scopes(o.scopes),
                 o.overridable, o.tosubclass, o.toinstance, o.translatable)
     if isinstance(o, (list, tuple)):
         return tuple(canon(x) for x in o)
@@ -67,6 +66,17 @@ def canon(o):
     if isinstance(o, (str, bytes)):
         return ("str", o if isinstance(o, str) else o.decode("utf-8", "replace"))
     return ("other", type(o).__name__, repr(o))
+
+
+SCOPE_NAMES = ("association", "class", "indication", "method", "parameter",
+               "property", "reference")
+
+
+def _scopes(sc):
+    on = set(k.lower() for k, v in sc.items() if v)
+    if "any" in on:          # ANY is shorthand for all seven scopes
+        on = set(SCOPE_NAMES)
+    return tuple(sorted(on))
 
 
 def _quals(qd):
@@ -107,3 +117,53 @@ def repo_items(conn):
                     obj.classname if kind == "C" else
                     (str(obj.path) if kind == "I" else obj.name), ns)
     return items, desc
+
+
+def ncanon(o):
+    """canon() with the DSP0201 defaults applied to attributes that are None
+    (propagated=False, overridable=True, tosubclass=True, toinstance=False,
+    translatable=False, is_array=False): what an object and its image after a
+    CIM-XML round trip have in common."""
+    return _norm(canon(o))
+
+
+def _d(v, default):
+    return default if v is None else v
+
+
+def _norm(t):
+    if not isinstance(t, tuple):
+        return t
+    t = tuple(_norm(x) for x in t)
+    if not t or not isinstance(t[0], str):
+        return t
+    k = t[0]
+    if k == "prop" and len(t) == 11:
+        return t[:8] + (_d(t[8], False),) + t[9:]
+    if k == "meth" and len(t) == 7:
+        return t[:4] + (_d(t[4], False),) + t[5:]
+    if k == "qual" and len(t) == 9:
+        return t[:4] + (_d(t[4], False), _d(t[5], True), _d(t[6], True),
+                        _d(t[7], False), _d(t[8], False))
+    if k == "qdecl" and len(t) == 11:
+        return t[:7] + (_d(t[7], True), _d(t[8], True), _d(t[9], False),
+                        _d(t[10], False))
+    return t
+
+
+def repo_items_norm(conn):
+    """like repo_items, but with ncanon (for comparing a repository written
+    through CIM-XML with one written directly)"""
+    items = []
+    repo = conn.cimrepository
+    for ns in sorted(repo.namespaces, key=lambda x: x.lower()):
+        nsl = ns.lower()
+        items.append("N:" + nsl)
+        for kind, store in (("C", repo.get_class_store(ns)),
+                            ("I", repo.get_instance_store(ns)),
+                            ("Q", repo.get_qualifier_store(ns))):
+            for obj in store.iter_values():
+                items.append("%s:%s" % (kind, hashlib.sha1(
+                    ("%s|%r" % (nsl, ncanon(obj))).encode("utf-8")
+                ).hexdigest()[:12]))
+    return items
